@@ -113,6 +113,32 @@ func genValue(r *mon.Rand, k reflect.Kind, src int) string {
 	return strconv.Itoa(src*100 + r.Intn(50) - 25)
 }
 
+func edgeValue(r *mon.Rand, k reflect.Kind) string {
+	switch k {
+	case reflect.Int8:
+		return r.Str("127", "128", "-128", "-129", "+5", "007")
+	case reflect.Int16:
+		return r.Str("32767", "32768", "-32768", "-32769")
+	case reflect.Int32:
+		return r.Str("2147483647", "2147483648", "-2147483648", "-2147483649")
+	case reflect.Int, reflect.Int64:
+		return r.Str("9223372036854775807", "9223372036854775808", "-9223372036854775808", "-9223372036854775809", "-0")
+	case reflect.Uint8:
+		return r.Str("255", "256", "-1", "+1")
+	case reflect.Uint16:
+		return r.Str("65535", "65536", "-1")
+	case reflect.Uint32:
+		return r.Str("4294967295", "4294967296")
+	case reflect.Uint, reflect.Uint64:
+		return r.Str("18446744073709551615", "18446744073709551616", "-1")
+	case reflect.Float32:
+		return r.Str("3.4028234e38", "3.5e38", "-3.5e38", "1e39", "1.00000017881393432617187499", "1e-46", "16777217", "0.1", "1e309")
+	case reflect.Float64:
+		return r.Str("1.7976931348623157e308", "1e309", "-1e309", "4.9e-324", "1e-400", "0.1", "9007199254740993")
+	}
+	return ""
+}
+
 func convert(k reflect.Kind, s string) (interface{}, error) {
 	switch k {
 	case reflect.Bool:
@@ -429,6 +455,13 @@ func genReqSpec(r *mon.Rand, fields []fieldSpec) reqSpec {
 				// text that does not convert for most kinds (JSON bodies are typed, and an
 				// empty text is indistinguishable from an absent value, so neither is used)
 				vs = []string{r.Str("x", "1.5.2", "99999999999999999999", "tru")}
+			}
+			if r.Chance(8) && s != "json" {
+				// texts at and just beyond the range of the field's own width, and texts whose
+				// float32 value differs from the float64 value rounded again
+				if e := edgeValue(r, f.kind); e != "" {
+					vs = []string{e}
+				}
 			}
 			if f.slice && r.Bool() {
 				vs = append(vs, genValue(r, f.kind, si+1))
